@@ -445,6 +445,24 @@ func (a *nilAnalysis) refine(d disj, cond ssa.Value, truth bool) disj {
 		}
 		n["v:"+other.Name()] = val
 		return n
+	case *ssa.Phi:
+		// `x := a && b; if x {…}`: the phi of a short-circuit — the only edge that can carry c.True is refined
+		var cand ssa.Value
+		n := 0
+		for _, e := range x.Edges {
+			if cst, ok := e.(*ssa.Const); ok && cst.Value != nil {
+				if (cst.Value.String() == "true") == c.True {
+					n += 2 // a constant edge that already has the wanted value: nothing to learn
+				}
+				continue
+			}
+			cand = e
+			n++
+		}
+		if n == 1 && cand != nil {
+			return a.refine(d, cand, c.True)
+		}
+		return d
 	case *ssa.Extract:
 		// v, ok := m[k]; ok true => present; for maps that never hold nil values the value is non-nil
 		if l, ok := x.Tuple.(*ssa.Lookup); ok && x.Index == 1 && c.True {
